@@ -102,4 +102,84 @@ def measure (st : State) : Nat :=
     | .holding d s _ => (if d then 1 else 0) + (if s then 1 else 0) + 2
     | .done => 0).sum
 
+/- Part 1 ------------------------------------------------------------------ -/
+
+/-- a file-system tree under the working directory: entries by relative path -/
+inductive NodeKind where
+  | file
+  | dir
+  | linkFile
+  | linkDir (target : Bytes)      -- symlink to the directory with that (clean, relative) path
+  deriving Repr, DecidableEq
+
+structure Node where
+  path : Bytes          -- clean path relative to the tree root, e.g. "a/b/foo.1.exr"
+  kind : NodeKind
+  deriving Repr
+
+abbrev Tree := List Node
+
+structure Flags where
+  recurse : Bool
+  all : Bool
+  seqsOnly : Bool
+  hash1 : Bool
+  strict : Bool
+  deriving Repr
+
+def baseName (p : Bytes) : Bytes := (pathSplit p).2
+
+/-- is `p` (a clean path) an existing directory of the tree (following links)? Paths are
+    resolved component-wise by `resolve`. -/
+def parentOf (p : Bytes) : Bytes :=
+  let d := (pathSplit p).1
+  match d.reverse with
+  | '/' :: r => r.reverse
+  | _ => d
+
+/-- children of the directory with real path `dirPath` ("" = the tree root) -/
+def childrenOf (t : Tree) (dirPath : Bytes) : List Node :=
+  t.filter fun n => parentOf n.path = dirPath ∧ !n.path.isEmpty
+
+/-- the Disk-model description of a directory -/
+def dirSpecOf (t : Tree) (dirPath : Bytes) : List Entry :=
+  (childrenOf t dirPath).map fun n =>
+    ⟨baseName n.path, match n.kind with
+      | .file => .file | .dir => .dir | .linkFile => .linkFile | .linkDir _ => .linkDir⟩
+
+def isDirPath (t : Tree) (p : Bytes) : Bool :=
+  p.isEmpty || t.any fun n => n.path = p ∧ n.kind = .dir
+
+def listOptsOf (f : Flags) : ListOpts :=
+  { single := !f.seqsOnly, hidden := f.all, style := if f.hash1 then .hash1 else .hash4 }
+
+def joinPath (a b : Bytes) : Bytes := if a.isEmpty then b else if b.isEmpty then a else a ++ '/' :: b
+
+/-- the recursive walk of `loadRecursive`: `shown` is the path as printed (through links),
+    `real` the real directory; returns the (shown, real) pairs of every directory listed.
+    Hidden directories (name longer than 1 starting with '.') are skipped unless -a — the root
+    included.  `seen` are link targets already traversed. -/
+def walk (t : Tree) (all : Bool) : Nat → List Bytes → Bytes → Bytes → List (Bytes × Bytes) × List Bytes
+  | 0, seen, _, _ => ([], seen)
+  | fuel + 1, seen, shown, real =>
+    let nm := baseName shown
+    if !all ∧ nm.length > 1 ∧ isPrefixOf ['.'] nm then ([], seen)
+    else
+      (childrenOf t real).foldl (fun (acc : List (Bytes × Bytes) × List Bytes) n =>
+        let (out, seen) := acc
+        match n.kind with
+        | .dir =>
+          let (o2, s2) := walk t all fuel seen (joinPath shown (baseName n.path)) n.path
+          (out ++ o2, s2)
+        | .linkDir tgt =>
+          let shown' := joinPath shown (baseName n.path)
+          let nm' := baseName shown'
+          if seen.contains tgt then
+            -- listed (unless hidden) but not traversed again
+            (if !all ∧ nm'.length > 1 ∧ isPrefixOf ['.'] nm' then (out, seen) else (out ++ [(shown', tgt)], seen))
+          else
+            let (o2, s2) := walk t all fuel (tgt :: seen) shown' tgt
+            (out ++ o2, s2)
+        | _ => (out, seen)) ([(shown, real)], seen)
+
 end Gfs.Seqls
